@@ -806,12 +806,89 @@ fn run_child_parent(rep: &Report, budget: &Budget, thorough: bool) {
 // ------------------------------------------------------------------------------------ driver
 
 pub fn meta(rep: &mut Report) {
-    rep.rule = "(ii)(iv) the C01 term space (T1/T2(/T3), stages listed under coverage.stages): per term Simplifier(sparse) result r; same instance and fresh instances (sparse, dense) must map r to r; Simplifier(dense) in an identically built context and simplify_single_expression must return the same reference r. (iii) histories: all ordered sequences of <= 2 (quick) / 3 (thorough) terms from a pool (every T1 term over two 4-bit symbols without literals and div/rem, plus T2 terms and rule-bearing combinations that contain pool members) fed to ONE simplifier in a clone of ONE context that already holds the whole pool, for the sparse and the dense cache; the last result must equal the result of a fresh simplifier in the same context (reference), of a fresh simplifier in a pristine clone (structure; reference for nodes of the pool context), be a fixed point of the same instance, and agree call by call between the cache kinds. (v) child/parent pairs: every rewritten T2 child x every one-operator parent (also with a non-leaf sibling): one simplifier that saw the child first must agree with a fresh one on the parent. (vi) depth: five chain patterns (1-bit add under implies/not, not, and-with-ones, ite with equal branches, slice of zero-extension) nested 1000 and 70000 times (thorough: up to 300000), sparse and dense cache: the result must be a fixed point of the same and of a fresh simplifier, must not depend on having simplified the half-depth sub-chain first, and must return within 180 s. (i) every call runs under a watchdog (deadline max(5 s, 100 x slowest observed call), confirmed by a second run). Terms/histories on which simplify panics are skipped and counted. states = distinct history prefixes, transitions = simplify calls inside histories, traces_validated_against_impl = histories compared; evaluations = terms of the sweep + histories; distinct_nontrivial = distinct sweep terms that the simplifier rewrites + distinct histories (length >= 2) whose last term is rewritten by the baseline".into();
+    rep.rule = "(ii)(iv) the C01 term space (T1/T2(/T3), stages listed under coverage.stages): per term Simplifier(sparse) result r; same instance and fresh instances (sparse, dense) must map r to r; Simplifier(dense) in an identically built context and simplify_single_expression must return the same reference r. (iii) histories: all ordered sequences of <= 2 (quick) / 3 (thorough) terms from a pool (every T1 term over two 4-bit symbols without literals and div/rem, plus T2 terms and rule-bearing combinations that contain pool members) fed to ONE simplifier in a clone of ONE context that already holds the whole pool, for the sparse and the dense cache; the last result must equal the result of a fresh simplifier in the same context (reference), of a fresh simplifier in a pristine clone (structure; reference for nodes of the pool context), be a fixed point of the same instance, and agree call by call between the cache kinds. (v) child/parent pairs: every rewritten T2 child x every one-operator parent (also with a non-leaf sibling): one simplifier that saw the child first must agree with a fresh one on the parent. (vii) creation order: every T1 term of the universes [1,2], [1,4] (thorough: five universes) is simplified alone in a pristine context and in contexts that already hold every T1 term of the universe, built in enumeration order and in reverse order (so every other one-operator term is older than it in one of them): same structure, fixed point, sparse and dense cache. (vi) depth: five chain patterns (1-bit add under implies/not, not, and-with-ones, ite with equal branches, slice of zero-extension) nested 1000 and 70000 times (thorough: up to 300000), sparse and dense cache: the result must be a fixed point of the same and of a fresh simplifier, must not depend on having simplified the half-depth sub-chain first, and must return within 180 s. (i) every call runs under a watchdog (deadline max(5 s, 100 x slowest observed call), confirmed by a second run). Terms/histories on which simplify panics are skipped and counted. states = distinct history prefixes, transitions = simplify calls inside histories, traces_validated_against_impl = histories compared; evaluations = terms of the sweep + histories; distinct_nontrivial = distinct sweep terms that the simplifier rewrites + distinct histories (length >= 2) whose last term is rewritten by the baseline".into();
     rep.assumptions = vec![
         "termination is bounded observation: a call is reported only when it exceeds the deadline twice".into(),
         "references of different contexts are compared only for identically built contexts with identical call sequences, otherwise structure is compared".into(),
         "terms on which the simplifier panics (baa todo!()/overflow above 64 bits) are C01's and skipped here".into(),
     ];
+}
+
+// ------------------------------------------------------------------------------------ creation order
+
+/// (vii) The result must not depend on which nodes already exist in the context, nor on whether they are
+/// older or younger than the expression being simplified: every T1 term of a small universe is simplified
+/// by a fresh simplifier (a) alone in a pristine context, (b) in a context that holds ALL T1 terms of the
+/// universe built in enumeration order, (c) in one that holds them built in reverse order - so every other
+/// one-operator term (the intermediate forms of rewrite chains among them) is older than the term in (b) or
+/// in (c). The three results must have the same structure and be fixed points.
+fn run_prebuilt(rep: &Report, thorough: bool) {
+    let universes: Vec<Vec<u32>> = if thorough { vec![vec![1, 2], vec![1, 3], vec![1, 4], vec![2, 3], vec![1, 8]] } else { vec![vec![1, 2], vec![1, 4]] };
+    run_prebuilt_universes(rep, &universes, None);
+}
+
+fn run_prebuilt_universes(rep: &Report, universes: &[Vec<u32>], only: Option<&str>) {
+    for u in universes.iter().cloned() {
+        let mut cfg = Cfg::new(&u);
+        cfg.lits = if u.iter().all(|w| *w <= 3) { Lits::Full } else { Lits::Reduced };
+        cfg.ext_by = vec![1];
+        cfg.divrem = false;
+        let terms = t1(&cfg);
+        let build_all = |rev: bool| -> (Context, Vec<ExprRef>) {
+            let mut ctx = Context::default();
+            let mut refs = vec![None; terms.len()];
+            let order: Vec<usize> = if rev { (0..terms.len()).rev().collect() } else { (0..terms.len()).collect() };
+            for i in order {
+                refs[i] = Some(terms[i].build(&mut ctx));
+            }
+            (ctx, refs.into_iter().map(|r| r.unwrap()).collect())
+        };
+        let (cf, rf) = build_all(false);
+        let (cr, rr) = build_all(true);
+        terms.par_iter().enumerate().for_each(|(i, t)| {
+            if only.map(|o| o != t.to_string()).unwrap_or(false) {
+                return;
+            }
+            watch_set(|| t.to_string());
+            let mut alone = Context::default();
+            let e = t.build(&mut alone);
+            let Ok(r0) = catch(|| Simp::new(Kind::Sparse).simplify(&mut alone, e)) else { return };
+            let s0 = structure(&alone, r0);
+            let mut hs = vec![];
+            for (label, base, root) in [("older-first", &cf, rf[i]), ("younger-first", &cr, rr[i])] {
+                for kind in [Kind::Sparse, Kind::Dense] {
+                    let mut ctx = base.clone();
+                    let r = catch(|| {
+                        let mut s = Simp::new(kind);
+                        let r1 = s.simplify(&mut ctx, root);
+                        let r2 = s.simplify(&mut ctx, r1);
+                        (r1, r2)
+                    });
+                    rep.add("prebuilt_context_runs", 1);
+                    let Ok((r1, r2)) = r else { continue };
+                    hs.push(hash64(&format!("prebuilt|{t}|{label}|{kind:?}")));
+                    let s1 = structure(&ctx, r1);
+                    let f = if s1 != s0 {
+                        Some(("context-dependent".to_string(), format!("{t} simplifies to `{s0}` alone in a fresh context, but to `{s1}` ({kind:?} cache) in a context that already holds every one-operator term of the universe {u:?} ({label})")))
+                    } else if r2 != r1 {
+                        Some(("context-idempotence".to_string(), format!("in a context that already holds every one-operator term of the universe {u:?} ({label}), the result `{s1}` of {t} is simplified further to `{}`", structure(&ctx, r2))))
+                    } else {
+                        None
+                    };
+                    if let Some((class, what)) = f {
+                        rep.violation(Violation {
+                            sig: format!("C13|{class}|{}|{}|{label}", sig_shape(t), wclass(operand_width(t))),
+                            what,
+                            case: json!({"kind": "prebuilt", "term": t.to_string(), "universe": u, "reverse": label == "younger-first", "cache": format!("{kind:?}")}),
+                            order: (1u64 << 58) + i as u64,
+                        });
+                    }
+                }
+            }
+            flush_calls();
+            rep.distinct_hashes(&hs);
+        });
+    }
 }
 
 // ------------------------------------------------------------------------------------ deep chains
@@ -922,6 +999,7 @@ pub fn run(opts: &Opts, rep: &Report) {
         run_histories(rep, &hist_budget, if tier.is_thorough() { 3 } else { 2 });
         let cp_budget = Budget::new(opts.budget_s * 0.25);
         run_child_parent(rep, &cp_budget, tier.is_thorough());
+        run_prebuilt(rep, tier.is_thorough());
         let st = stages(tier, opts.seed, true, true);
         run_stages(&st, rep, &budget, &|_| true, &|t, order| {
             let r = check_term(t, order, rep);
@@ -945,6 +1023,11 @@ pub fn run(opts: &Opts, rep: &Report) {
 
 pub fn replay(case: &Value, rep: &Report) {
     let kind = case["kind"].as_str().unwrap_or("term").to_string();
+    if kind == "prebuilt" {
+        let u: Vec<u32> = case["universe"].as_array().map(|a| a.iter().filter_map(|x| x.as_u64()).map(|x| x as u32).collect()).unwrap_or_default();
+        run_prebuilt_universes(rep, &[u], case["term"].as_str());
+        return;
+    }
     let case2 = case.clone();
     let dl = Duration::from_millis(MIN_DEADLINE_MS);
     // run in a thread with the deadline: a replayed non-termination must not hang the replay
